@@ -280,7 +280,7 @@ fn compress_cells(rep: &Report, seed: u64) {
                 None => None,
                 Some(0) => Some(Vec::new()),
                 Some(1) => {
-                    let l = rng.urange(1, 3000);
+                    let l = rng.urange(8000, 30_000);
                     Some(rng.bytes(l))
                 }
                 Some(_) => Some(b"BITA1\0 looks like an archive but is the user's file".to_vec()),
@@ -314,6 +314,11 @@ fn compress_cells(rep: &Report, seed: u64) {
                 let parsed = codec::parse_archive(&bytes).map_err(|e| format!("archive unreadable: {}", e))?;
                 if codec::reconstruct(&parsed, &bytes)? != source {
                     return Err("archive does not reconstruct to the source".into());
+                }
+                // The new archive replaces the old file completely.
+                let end = parsed.chunk_data_offset + parsed.dict.descs.iter().map(|d| d.archive_offset + d.archive_size as u64).max().unwrap_or(0);
+                if bytes.len() as u64 != end.max(parsed.header_len as u64) {
+                    return Err(format!("archive is {} bytes long but its last stored chunk ends at {} (remains of the previous output?)", bytes.len(), end));
                 }
             }
             Ok(true)
